@@ -364,6 +364,48 @@ fn run_call(
         }));
     }
     let fs: Vec<&str> = formulas.iter().map(|s| s.as_str()).collect();
+    if trace_on {
+        // the state the marking pass leaves, through the same public constructors the entry points use
+        // (EvalContext::from_multiple_trees, extend_context_with_wild_cards): the first record of the cache trace
+        let extended = api.contains("ext");
+        let init = catch_unwind(AssertUnwindSafe(|| -> Result<Value, String> {
+            let mut trees = Vec::new();
+            let mut props: LabelToSetMap = HashMap::new();
+            let mut doms: LabelToSetMap = HashMap::new();
+            for f in fs.iter() {
+                let tree = if extended {
+                    parse_and_minimize_extended_formula(g.symbolic_context(), f)?
+                } else {
+                    parse_and_minimize_hctl_formula(g.symbolic_context(), f)?
+                };
+                if extended {
+                    let (p, d) = validate_and_divide_wild_cards(&tree, &ctx_sets)?;
+                    props.extend(p);
+                    doms.extend(d);
+                }
+                trees.push(tree);
+            }
+            let mut ec = EvalContext::from_multiple_trees(&trees);
+            if extended {
+                ec.extend_context_with_wild_cards(&props, &doms);
+            }
+            let mut entries: Vec<Value> = ec
+                .get_duplicates()
+                .iter()
+                .map(|((form, d), n)| {
+                    let cached = ec.get_cache().contains_key(&(form.clone(), d.clone()));
+                    let dom_text: Vec<String> = d.iter().map(|(v, l)| format!("{v}:{}", l.clone().unwrap_or_default())).collect();
+                    json!({"form": form, "doms": dom_text.join(","), "n": n, "cached": cached,
+                           "wild": form.starts_with('%') && form.ends_with('%') && d.is_empty()})
+                })
+                .collect();
+            entries.sort_by_key(|e| (e["form"].as_str().unwrap_or("").to_string(), e["doms"].as_str().unwrap_or("").to_string()));
+            Ok(json!(entries))
+        }));
+        if let Ok(Ok(v)) = init {
+            out.insert("dups0".into(), v);
+        }
+    }
     let mut n_callbacks = 0u64;
     let mut cb = |_: &GraphColoredVertices, _: &str| {
         n_callbacks += 1;
